@@ -14,12 +14,12 @@ CONSTANTS KF_ReadTooFewArgs,   \* 'cat' / 'grep' / 'tail' without arguments inde
 
 Envelopes == {"ok", "oldversion", "newerversion", "noprotocol", "toofewwords", "nobase64word", "badbase64", "empty"}
 Words == {"cat", "grep", "tail", "map", ".ack", "health", "unknown", ""}
-Opts == {"none", "empty", "valid", "context", "noeq", "nonint", "b64good", "b64bad", "negbefore", "hugebefore"}
+Opts == {"none", "empty", "valid", "context", "noeq", "nonint", "b64good", "b64bad", "b64bare", "negbefore", "hugebefore"}   \* b64bare: the value is the marker "base64" alone
 Regexes == {"none", "default", "invert", "noop", "wrongprefix", "uncompilable", "noflag", "bogusflag",
             "flaglist_in", "flaglist_dn", "flaglist_ni", "flaglist_bdn"}   \* flag lists: invert,noop / default,noop / noop,invert / bogus,default,noop
 Queries == {"valid", "empty", "blank", "lonebackquote", "unknownkeyword", "truncated", "badlogformat", "unknownagg"}
 \* queries the parser accepts whose numbers sit on a boundary (they reach timers, limits and slices in the aggregator)
-BoundaryQueries == {"interval0", "intervalneg", "intervalhuge", "limit0", "limitneg", "rorderlimit1", "setclause", "manyselect"}
+BoundaryQueries == {"quotedbackquote", "quotedkeyword", "interval0", "intervalneg", "intervalhuge", "limit0", "limitneg", "rorderlimit1", "setclause", "manyselect"}
 Files == {"existing", "missing", "directory", "emptyglob"}
 \* spellings of the file argument: wildcards in the last / in a directory component, non-canonical paths (the glob is
 \* cleaned for matching, identifiers are derived by pairing glob and path components), a directory with a trailing slash
@@ -41,7 +41,7 @@ Cmds == {[env |-> e, word |-> "cat", opts |-> "none", nargs |-> 4, regex |-> "de
 \* handleProtocolVersion / handleBase64: errors are answered with a server message, nothing is indexed beyond a checked length
 EnvelopeError(c) == c.env # "ok"
 \* DeserializeOptions: error -> message, command not run
-OptionError(c) == c.opts \in {"noeq", "nonint", "b64bad"}
+OptionError(c) == c.opts \in {"noeq", "nonint", "b64bad"}      \* (b64bare: "base64" without '%' is an ordinary value; max=base64 is a non-integer)
 \* argc = len(decodedStr): the length of the payload STRING, at least the length of the command word
 Argc(c) == IF c.nargs = 1 THEN (IF c.word = "" THEN 0 ELSE IF c.word = "cat" THEN 3 ELSE 4) ELSE 12   \* any payload with a blank is longer than 4
 LenArgs(c) == c.nargs
